@@ -355,6 +355,10 @@ pub fn campaign<P: Property>(p: &P, ctx: &Ctx, workers: u64, extra_args: &[Strin
                 }
             }
             _ => {
+                if exited.get(w).cloned().flatten() == Some(2) {
+                    // exit 2 is the simulator's own harness-error status (e.g. a panic of harness code)
+                    crate::harness_error(&format!("worker {} ended with a harness error while executing run {:?}", w, last_started));
+                }
                 // The worker died (abort, kill, stack overflow, exit) or hung inside a run: the SUT took
                 // the process down. Attribute it to the run that had been started last.
                 let idx = match last_started {
